@@ -82,6 +82,8 @@ type caseJSON struct {
 	Get        [][2]string `json:"get,omitempty"`
 	Post       [][2]string `json:"post,omitempty"`
 	Headers    [][2]string `json:"headers,omitempty"`
+	GetWire    string      `json:"get_wire,omitempty"`  // explicit wire form of Get (alternative encodings of names/values)
+	PostWire   string      `json:"post_wire,omitempty"` // explicit wire form of Post
 	Reps       int         `json:"reps,omitempty"`
 	Observed   any         `json:"observed,omitempty"`
 	FindingKey string      `json:"finding_key,omitempty"`
@@ -336,6 +338,37 @@ func directives(rs []ruleJ) string {
 	return b.String()
 }
 
+func (cj caseJSON) getWire() string {
+	if cj.GetWire != "" {
+		return cj.GetWire
+	}
+	return encodePairs(cj.Get)
+}
+
+func (cj caseJSON) postWire() string {
+	if cj.PostWire != "" {
+		return cj.PostWire
+	}
+	return encodePairs(cj.Post)
+}
+
+// wireDecodes: the explicit wire form decodes (split at &, first =, %XX and + unescaped) to the pairs
+func wireDecodes(wire string, ps [][2]string) bool {
+	parts := strings.Split(wire, "&")
+	if len(parts) != len(ps) {
+		return false
+	}
+	for i, p := range parts {
+		k, v, _ := strings.Cut(p, "=")
+		dk, e1 := url.QueryUnescape(k)
+		dv, e2 := url.QueryUnescape(v)
+		if e1 != nil || e2 != nil || dk != ps[i][0] || dv != ps[i][1] {
+			return false
+		}
+	}
+	return true
+}
+
 func encodePairs(ps [][2]string) string {
 	var parts []string
 	for _, p := range ps {
@@ -463,7 +496,7 @@ func coqReq(cj caseJSON) string {
 	if len(cj.Post) > 0 {
 		method = "POST"
 	}
-	return fmt.Sprintf("(mkReq %s %s %s %s %s)", coqPairs(cj.Get), coqPairs(cj.Post), coqPairs(cj.Headers), vh.HxS(method), vh.HxS(encodePairs(cj.Get)))
+	return fmt.Sprintf("(mkReq %s %s %s %s %s)", coqPairs(cj.Get), coqPairs(cj.Post), coqPairs(cj.Headers), vh.HxS(method), vh.HxS(cj.getWire()))
 }
 
 // ---------------------------------------------------------------------------------------
@@ -508,7 +541,7 @@ func runTx(waf *corazawaf.WAF, cj caseJSON) outcome {
 	}
 	uri := "/p"
 	if len(cj.Get) > 0 {
-		uri += "?" + encodePairs(cj.Get)
+		uri += "?" + cj.getWire()
 	}
 	tx.ProcessURI(uri, method, "HTTP/1.1")
 	for _, h := range cj.Headers {
@@ -516,7 +549,7 @@ func runTx(waf *corazawaf.WAF, cj caseJSON) outcome {
 	}
 	tx.ProcessRequestHeaders()
 	if len(cj.Post) > 0 {
-		_, _, _ = tx.WriteRequestBody([]byte(encodePairs(cj.Post)))
+		_, _, _ = tx.WriteRequestBody([]byte(cj.postWire()))
 	}
 	_, _ = tx.ProcessRequestBody()
 	tx.ProcessLogging()
@@ -597,7 +630,10 @@ type runner struct {
 	sensCount   int
 
 	seriesNontrivial int
+	sstats           sstats
 }
+
+type sstats struct{ uploadsDeleted, spillsDeleted, closeErrors int }
 
 func (rn *runner) fail(key, what string, c caseJSON) {
 	rn.res.OracleFailures = append(rn.res.OracleFailures, vh.OracleFailure{Key: key, What: what, Case: c})
@@ -626,6 +662,13 @@ func (rn *runner) runCase(cj caseJSON) {
 	reps := cj.Reps
 	if reps <= 0 {
 		reps = rn.cfg.Pick(20, 200)
+	}
+	if (cj.GetWire != "" && !wireDecodes(cj.GetWire, cj.Get)) || (cj.PostWire != "" && !wireDecodes(cj.PostWire, cj.Post)) {
+		rn.res.InputDistribution["wire_form_inconsistent_skipped"]++
+		return
+	}
+	if cj.GetWire != "" || cj.PostWire != "" {
+		rn.res.InputDistribution["names_in_several_encodings"]++
 	}
 	dirs := directives(cj.Rules)
 	long, err := newWAF(dirs)
@@ -832,6 +875,9 @@ func Run(cfg vh.Config) (*vh.Result, error) {
 			rn.runSeries(genSeries(srng))
 		}
 		res.InputDistribution["series_with_fired_rules_on_long_lived_waf"] = rn.seriesNontrivial
+		res.InputDistribution["series_upload_temp_files_deleted_before_close"] = rn.sstats.uploadsDeleted
+		res.InputDistribution["series_spill_files_deleted_before_close"] = rn.sstats.spillsDeleted
+		res.InputDistribution["series_close_returned_error"] = rn.sstats.closeErrors
 	}
 	res.OracleEvaluations = rn.oracleEvals
 	res.Evaluations = rn.oracleEvals
